@@ -144,8 +144,18 @@ impl Monitor for Mon {
             }
             Act::Liquidate { v, target, .. } if s.res.ok => {
                 self.liq_this_block[*v] = true;
-                self.liquidated[*v].insert(*target);
-                self.acted[*v].remove(target);
+                if s.post.pos[*v][*target].is_some() {
+                    // a partial liquidation: the position still exists and was touched in this block (by the liquidation, and
+                    // perhaps by its owner before): its owner is a trader "whose position was already updated in that block"
+                    if s.pre.pos[*v][*target] != s.post.pos[*v][*target] {
+                        self.acted[*v].insert(*target);
+                        out.count("partially_liquidated_position_counts_as_updated");
+                    }
+                } else {
+                    // the position is gone: the statement does not say whether a fresh one may be opened in the same block
+                    self.liquidated[*v].insert(*target);
+                    self.acted[*v].remove(target);
+                }
                 out.count("liquidations");
             }
             _ => {}
